@@ -166,7 +166,8 @@ def clamp_descs(mode):
                       "second_of_minute": 0})
             a.update(gen.zone_kwargs(((0, 0), (5, 30), (-3, -30))[i % 3]))
             for dkw in ({"years": 1}, {"years": 4}, {"months": 1},
-                        {"years": 1, "months": 1}, {"months": 1, "days": 1}):
+                        {"years": 1, "months": 1}, {"months": 1, "days": 1},
+                        {"months": 12}):
                 for fmt in (3, 4):
                     for reps in (None, 6):
                         d = {"mode": mode, "fmt": fmt, "reps": reps,
